@@ -197,3 +197,11 @@ int fiber_sleep(uint32_t seconds, uint32_t useconds) {
 void fiber_fd_closed(int fd) {
   // NOP
 }
+
+void fiber_fd_close_begin(int fd) {
+  // NOP
+}
+
+void fiber_fd_close_end(int fd) {
+  // NOP
+}
